@@ -113,7 +113,17 @@ def check_aux(chk, packed, exp, tagname):
                 kw = {f: True for f in sub}
                 # ppd as an int, as a float, and one ulp below / above (headers store NP**(1/3)): all denote the same particles-per-dimension
                 ppd_arg = [ppd, float(ppd), float(np.nextafter(float(ppd), 0.0)), float(np.nextafter(float(ppd), np.inf))][si % 4]
-                out = unpack_pids(relayout(packed, len(sub) + (dt == np.float64)), box=box, ppd=ppd_arg, float_dtype=dt, **kw)
+                # the words in any container numpy converts BY VALUE to uint64: strided / Fortran views, a Python list, a big-endian array, int64 (values below 2**63)
+                cont = si % 6
+                if cont == 3 and n <= 20000:
+                    arg = [int(x_) for x_ in packed]
+                elif cont == 4:
+                    arg = packed.astype('>u8')
+                elif cont == 5 and int(packed.max(initial=0)) < 2 ** 63:
+                    arg = packed.astype(np.int64)
+                else:
+                    arg = relayout(packed, len(sub) + (dt == np.float64))
+                out = unpack_pids(arg, box=box, ppd=ppd_arg, float_dtype=dt, **kw)
                 nrun += 1
                 if set(out) != set(sub):
                     chk.violation(f'aux-{tagname}-columns', f'unpack_pids({sub}) returned {sorted(out)}', dict(sub=list(sub)))
